@@ -34,7 +34,7 @@ structure Node where
 deriving Repr
 
 inductive Res
-  | ok (tree : List Node) (notif : List Path)
+  | ok (tree : List Node) (notif : List (Path × Bool))   -- notifications: (path, was a directory)
   | err (why : String)
 deriving Repr
 
@@ -96,7 +96,7 @@ def included (a : Args) (rel : Path) : Bool :=
 
 structure St where
   tree : List Node
-  notif : List Path := []
+  notif : List (Path × Bool) := []
   inodes : List (Nat × Path) := []     -- source inode → first destination path
   lazyDone : List Path := []           -- not-included source dirs (rel) already created on demand
 
@@ -134,7 +134,7 @@ def copyEntry (a : Args) (srcSub : List Snap) (srcRel dstFinal : Path) (s : St) 
     match findN s.tree target with
     | none =>
       let (st, mt) := applyInfo a e.st []
-      return { s with tree := s.tree ++ [{ path := target, st := { st with path := target }, mtime := mt }], notif := s.notif ++ [target] }
+      return { s with tree := s.tree ++ [{ path := target, st := { st with path := target }, mtime := mt }], notif := s.notif ++ [(target, e.st.isDir)] }
     | some n =>
       if !n.st.isDir then throw "cannot copy to non-directory"
       if top then
@@ -142,7 +142,7 @@ def copyEntry (a : Args) (srcSub : List Snap) (srcRel dstFinal : Path) (s : St) 
         return { s with tree := upsert s.tree { n with mtime := some (a.utime.getD e.st.mtime), keepIno := none } }
       else
         let (st, mt) := applyInfo a e.st n.st.xattrs
-        return { s with tree := upsert s.tree { n with st := { st with path := target }, mtime := mt, keepIno := none }, notif := s.notif ++ [target] }
+        return { s with tree := upsert s.tree { n with st := { st with path := target }, mtime := mt, keepIno := none }, notif := s.notif ++ [(target, e.st.isDir)] }
   else
     -- ensureEmptyFileTarget
     let s ← match findN s.tree target with
@@ -151,13 +151,15 @@ def copyEntry (a : Args) (srcSub : List Snap) (srcRel dstFinal : Path) (s : St) 
     let (st, mt) := applyInfo a e.st []
     let isReg := e.st.isRegular
     let leader := if isReg && e.nlink > 1 then (s.inodes.find? (·.1 = e.ino)).map (·.2) else none
+    -- the link source is the path just removed (several sources landing on one non-directory name): os.Link fails
+    if leader = some target then throw "failed to create hard link (link source is the target itself)"
     let inodes := if isReg && e.nlink > 1 && leader.isNone then (e.ino, target) :: s.inodes else s.inodes
     let node : Node := { path := target, st := { st with path := target }, sha := e.sha, mtime := mt, grp := leader.getD [] }
     -- metadata of a hard link is applied to the shared inode: the group follows the last member copied
     let tree := match leader with
       | some l => s.tree.map fun n => if n.path = l || n.grp = l then { n with st := { st with path := n.path }, mtime := mt } else n
       | none => s.tree
-    return { s with tree := tree ++ [node], notif := s.notif ++ [target], inodes := inodes }
+    return { s with tree := tree ++ [node], notif := s.notif ++ [(target, false)], inodes := inodes }
 
 /-- where the source lands in the destination root (the basename / dir-contents / file-into-directory rule), given the
 resolved destination path; `none` = a parent cannot be created -/
@@ -203,7 +205,8 @@ def copyOne (a : Args) (srcTree : List Snap) (srcRel srcArg dstRel : Path) (s0 :
       (rootEnt ++ sub).foldlM (copyEntry a (rootEnt ++ sub) srcRel dstFinal) { s0 with tree := t3, lazyDone := [] }
 
 /-- the whole call: ensure the destination's parents, then copy every source (one, or the wildcard matches in order) -/
-def expectedCopyMulti (a : Args) (srcTree dstTree : List Snap) (srcs : List (Path × Path)) (dstRel : Path) (dstHasBase : Bool) : Res :=
+def expectedCopyMulti (a : Args) (srcTree dstTree : List Snap) (srcs : List (Path × Path)) (dstRel : Path) (dstHasBase : Bool)
+    (reresolve : List Node → Option Path := fun _ => none) : Res :=
   let rootNode : Node := { path := [], st := { path := [], mode := modeDir ||| 493, uid := 0, gid := 0, size := 0, mtime := 0, linkname := [],
                                                  devmajor := 0, devminor := 0 }, mtime := none }
   let t0 := rootNode :: dstTree.map nodeOfSnap
@@ -211,9 +214,15 @@ def expectedCopyMulti (a : Args) (srcTree dstTree : List Snap) (srcs : List (Pat
   match mkdirAll a t0 ensure with
   | .error w => .err w
   | .ok t1 =>
-    match srcs.foldlM (fun (s : St) (sr : Path × Path) => copyOne a srcTree sr.1 sr.2 dstRel s) { tree := t1 } with
+    -- the destination argument is resolved again (inside the root) for every source after the first
+    let step (acc : St × Bool) (sr : Path × Path) : Except String (St × Bool) := do
+      let (s, first) := acc
+      let d := if first then dstRel else (reresolve s.tree).getD dstRel
+      let s' ← copyOne a srcTree sr.1 sr.2 d s
+      pure (s', false)
+    match srcs.foldlM step ({ tree := t1 }, true) with
     | .error w => .err w
-    | .ok s => .ok s.tree s.notif
+    | .ok (s, _) => .ok s.tree s.notif
 
 def expectedCopy (a : Args) (srcTree dstTree : List Snap) (srcRel dstRel : Path) (dstHasBase : Bool) : Res :=
   expectedCopyMulti a srcTree dstTree [(srcRel, a.src)] dstRel dstHasBase
